@@ -8,7 +8,10 @@ import (
 	"io"
 	"net"
 	"sync"
+	"sync/atomic"
+	"syscall"
 	"time"
+	"unsafe"
 )
 
 // Pub is one recorded publish.
@@ -34,6 +37,7 @@ type Broker struct {
 
 type conn struct {
 	c     net.Conn
+	busy  int32 // a packet has been taken off the wire and is being processed
 	wm    sync.Mutex
 	id    string
 	queue chan []byte
@@ -112,6 +116,77 @@ func (b *Broker) Queued() int {
 	b.mu.Lock()
 	defer b.mu.Unlock()
 	return b.queued
+}
+
+// Unread reports whether something sent to the broker has not been processed yet: a packet
+// being handled, bytes buffered by a connection's reader, or bytes waiting in the kernel's
+// receive buffer of a connection (FIONREAD). Together with "the publisher has returned from
+// Publish" (paho completes a QoS 0 token after the write) this makes "every notification that
+// was sent has been recorded" a logical condition instead of a matter of waiting long enough.
+func (b *Broker) Unread() int {
+	b.mu.Lock()
+	var cs []*conn
+	for c := range b.conns {
+		cs = append(cs, c)
+	}
+	b.mu.Unlock()
+	n := 0
+	for _, c := range cs {
+		// order matters: first the kernel buffer, then the flag - the reader raises the flag
+		// BEFORE it takes bytes out of the kernel buffer (wireReader), so bytes that were in the
+		// buffer when this function started are seen in one of the two places
+		if tc, ok := c.c.(*net.TCPConn); ok {
+			if rc, err := tc.SyscallConn(); err == nil {
+				rc.Control(func(fd uintptr) {
+					var pending int32
+					if _, _, e := syscall.Syscall(syscall.SYS_IOCTL, fd, 0x541B, uintptr(unsafe.Pointer(&pending))); e == 0 && pending > 0 {
+						n++
+					}
+				})
+			}
+		}
+		if atomic.LoadInt32(&c.busy) != 0 {
+			n++
+		}
+	}
+	return n
+}
+
+// wireReader reads a connection's bytes with the busy flag raised before anything is taken
+// out of the kernel's receive buffer.
+type wireReader struct{ c *conn }
+
+func (w *wireReader) Read(p []byte) (int, error) {
+	tc, ok := w.c.c.(*net.TCPConn)
+	if !ok {
+		atomic.StoreInt32(&w.c.busy, 1)
+		return w.c.c.Read(p)
+	}
+	rc, err := tc.SyscallConn()
+	if err != nil {
+		return 0, err
+	}
+	var n int
+	var rerr error
+	err = rc.Read(func(fd uintptr) bool {
+		atomic.StoreInt32(&w.c.busy, 1)
+		n, rerr = syscall.Read(int(fd), p)
+		if rerr == syscall.EAGAIN {
+			atomic.StoreInt32(&w.c.busy, 0)
+			return false // not readable yet: park until it is
+		}
+		return true
+	})
+	if err != nil {
+		return 0, err
+	}
+	if rerr != nil {
+		return 0, rerr
+	}
+	if n == 0 {
+		return 0, io.EOF
+	}
+	return n, nil
 }
 
 // SetDelay installs the delivery delay function.
@@ -222,8 +297,11 @@ func (b *Broker) serve(c *conn) {
 		}
 		b.mu.Unlock()
 	}()
-	r := bufio.NewReader(c.c)
+	r := bufio.NewReader(&wireReader{c: c})
 	for {
+		if r.Buffered() == 0 {
+			atomic.StoreInt32(&c.busy, 0) // nothing taken off the wire is left unprocessed
+		}
 		h, err := r.ReadByte()
 		if err != nil {
 			return
